@@ -17,9 +17,9 @@
     flight finishes and stores BEFORE the clear.  The variant whose [invalidate] does not
     take the lock refutes both statements ([inval_refuted_unlocked],
     [enable_refuted_unlocked]). *)
-From Coq Require Import List Bool Arith Lia.
+From Coq Require Import List Bool Arith.
 Import ListNotations.
-From TI Require Import lib.Sched model.CachesInval.
+From TI Require Import lib.Sched model.CachesInval proofs.C15Arith.
 
 (** inside the region protected by the decorator's lock *)
 Definition q_inside (s : qstate) (t : nat) : Prop :=
@@ -414,7 +414,7 @@ Proof.
     + intros u fl0 E. thr u t; [discriminate|]. apply (qi_floor s I u); auto.
     + intros u fl0 k0 en0 E. thr u t; eapply (qi_rets s I); simpl in *; eauto.
     + intros u k1 fl1 en1 E. thr u t.
-      * simpl in E. inversion E; subst. lia.
+      * simpl in E. inversion E; subst. rewrite BO. apply le_n.
       * apply (qi_out s I u k1 fl1 en1); auto.
     + intros k0 en0 C Cd F. apply keep_pending; auto. apply (qi_cache_cond s I k0 en0); auto.
     + intros u en0 E Cd F. apply keep_pending; auto. thr u t; [discriminate|].
@@ -551,11 +551,11 @@ Lemma enable_refuted_unlocked :
     /\ exists en, q_cache s 0 = Some en /\ e_cond en = false /\ e_born en < q_invals s.
 Proof.
   exists false, (fun _ => None), iv_prog, iv_sched. cbv zeta. split; [|split; [|split; [|split]]].
-  - intros t Lt. destruct t as [|[|t]]; [split; vm_compute; reflexivity|split; vm_compute; reflexivity|lia].
+  - intros t Lt. destruct t as [|[|t]]; [split; vm_compute; reflexivity|split; vm_compute; reflexivity|nat_ar].
   - intros u [P|P]; destruct u as [|[|u]]; vm_compute in P; discriminate.
   - vm_compute. reflexivity.
   - vm_compute. reflexivity.
-  - eexists. split; [vm_compute; reflexivity|]. split; [reflexivity|]. vm_compute. lia.
+  - eexists. split; [vm_compute; reflexivity|]. split; [reflexivity|]. vm_compute. apply le_n.
 Qed.
 
 (** the decorator alone: thread 0 calls, thread 1 invalidates while thread 0 is inside the
@@ -583,8 +583,8 @@ Proof.
   exists true, (fun _ => None), iv_prog3, iv_sched3, 2, 1, 0, {| e_cond := true; e_born := 0; e_run := 1 |}.
   cbv zeta. split; [|split; [|split]].
   - intros t Lt. destruct t as [|[|[|t]]];
-      [split; vm_compute; reflexivity|split; vm_compute; reflexivity|split; vm_compute; reflexivity|lia].
+      [split; vm_compute; reflexivity|split; vm_compute; reflexivity|split; vm_compute; reflexivity|nat_ar].
   - vm_compute. left. reflexivity.
-  - simpl. lia.
+  - simpl. apply le_n.
   - vm_compute. reflexivity.
 Qed.
